@@ -196,7 +196,9 @@ Definition conway_coerce_to_coin (m : assets) (e : Z) : outcome assets := if all
 
 Definition add_lovelace (a b e : Z) : outcome Z := ok_or (cadd64 a b) e.
 
-(* add_values (pre-Conway): quantities go through `as i64`, checked i64 addition, then u64::try_from *)
+(* coerce_to_i64: i64::try_from on every quantity *)
+Definition coerce_to_i64 (m : assets) (e : Z) : outcome assets := if all_q (fun q => q <=? I64MAX) m then Ok m else Err e.
+(* add_values (pre-Conway): quantities go through i64::try_from, checked i64 addition, then u64::try_from *)
 Definition add_values (f s : value) (e : Z) : outcome value :=
   match f, s with
   | VCoin a, VCoin b => c <- add_lovelace a b e ;; Ok (VCoin c)
@@ -204,7 +206,8 @@ Definition add_values (f s : value) (e : Z) : outcome value :=
   | VCoin a, VMulti b m => c <- add_lovelace a b e ;; Ok (VMulti c m)
   | VMulti a fm, VMulti b sm =>
       c <- add_lovelace a b e ;;
-      r <- add_ma cadd_i64 (map_q u64_as_i64 fm) (map_q u64_as_i64 sm) e ;;
+      fi <- coerce_to_i64 fm e ;; si <- coerce_to_i64 sm e ;;
+      r <- add_ma cadd_i64 fi si e ;;
       r' <- coerce_to_coin r e ;; Ok (VMulti c r')
   end.
 (* conway_add_values: checked u64 addition, then PositiveCoin::try_from *)
@@ -223,7 +226,8 @@ Definition add_minted_value (base : value) (mint : assets) (e : Z) : outcome val
   match base with
   | VCoin n => r <- coerce_to_coin mint e ;; Ok (VMulti n r)
   | VMulti n bm =>
-      r <- add_ma cadd_i64 (map_q u64_as_i64 bm) mint e ;;
+      bi <- coerce_to_i64 bm e ;;
+      r <- add_ma cadd_i64 bi mint e ;;
       r' <- coerce_to_coin r e ;; Ok (VMulti n r')
   end.
 
@@ -419,11 +423,11 @@ Fixpoint check_vk_wit (h : Z) (ws : list (bool * vkw)) (e_sig e_missing : Z) : o
       if k_hash k =? h then (if verify k then Ok ((true, k) :: r) else Err e_sig)
       else r' <- check_vk_wit h r e_sig e_missing ;; Ok ((c, k) :: r')
   end.
-(* check_remaining_vk_wits: decided by the first uncovered witness *)
+(* check_remaining_vk_wits: every witness no input needed must verify *)
 Fixpoint check_remaining (ws : list (bool * vkw)) (e_sig : Z) : outcome unit :=
   match ws with
   | [] => ok
-  | (c, k) :: r => if c then check_remaining r e_sig else if verify k then ok else Err e_sig
+  | (c, k) :: r => if c then check_remaining r e_sig else if verify k then check_remaining r e_sig else Err e_sig
   end.
 Definition pay_of (a : addr) : option pay := match a with AShelley _ p => Some p | _ => None end.
 (* shelley_ma::check_native_script_witness: the payload is not reset between scripts *)
